@@ -113,7 +113,7 @@ def generate(family, rng, tier):
         base = rng.randrange(0, 64)
         ops = gen_ops(rng, n, p["dw_m"] // 8, lambda r: base + r.randrange(8), bursts=False)
     elif family == "cache":
-        dw_m, dw_s = rng.choice([(32, 32), (32, 64), (32, 128), (64, 32), (32, 32)])
+        dw_m, dw_s = rng.choice([(32, 32), (32, 64), (32, 128), (64, 32), (32, 32), (64, 8), (128, 16), (64, 16)])      # (slave up to 8x narrower / 4x wider)
         cachesize = rng.choice([4, 8, 16, 64])       # in 32-bit words
         cachesize = max(cachesize, max(dw_s // dw_m, 1) * 2 if dw_s > dw_m else 4)
         p.update(dw_m=dw_m, dw_s=dw_s, cachesize=cachesize, reverse=rng.random() < 0.6)
